@@ -442,7 +442,7 @@ fn plain_cfg(nthreads: usize, nlibs: usize) -> WorldCfg {
 
 fn random_name(r: &mut Rng) -> Vec<u8> {
     let len = r.below(16) as usize;
-    let s: String = (0..len).map(|_| *r.pick(&['a', 'b', 'Z', '0', ' ', '\t', '-', 'é', 'ß', '漢', '😀', '(', ')', ':'])).collect();
+    let s: String = (0..len).map(|_| *r.pick(&['a', 'b', 'Z', '0', ' ', '\t', '-', 'é', 'ß', '漢', '😀', '(', ')', ':', '\n', '\\'])).collect();
     let mut bytes = s.into_bytes();
     bytes.truncate(15);
     while std::str::from_utf8(&bytes).is_err() {
@@ -863,7 +863,8 @@ fn gen_c07(r: &mut Rng, seed: u64) -> Scenario {
 }
 
 fn gen_c20(r: &mut Rng, seed: u64) -> Scenario {
-    let n = (thread_count(r)).min(24);
+    let limit_on = r.chance(1, 4);
+    let n = if limit_on { r.range(21, 40) as usize } else { (thread_count(r)).min(24) };
     let mut cfg = plain_cfg(n, 2);
     cfg.stack_pages_max = 4;
     let mut b = build_world(r, &cfg);
@@ -899,6 +900,10 @@ fn gen_c20(r: &mut Rng, seed: u64) -> Scenario {
         let (ss, sl) = stack_of(&b, tid);
         let sp_unaligned = r.chance(1, 6);
         let mut sp = ss + sl / 2 + r.below(sl / 4 / 8) * 8;
+        if limit_on && ti >= 20 && r.coin() {
+            // upper half of its page: the shortened region must skip the first 2 KiB chunk
+            sp = (sp & !0xfff) + 2048 + (sp & 0x7f8);
+        }
         if sp_unaligned {
             sp += r.range(1, 7);
         }
@@ -907,7 +912,10 @@ fn gen_c20(r: &mut Rng, seed: u64) -> Scenario {
         let inside = lo + r.below(hi - lo);
         let first_word = (sp + 7) & !7;
         let last_word = ss + sl - 8;
-        let kind = match r.below(10) {
+        // with a size limit, late threads' stacks are cut to 2 KiB: only references near the stack
+        // pointer are unambiguous then
+        let pick = if limit_on { *r.pick(&[0u64, 1, 2, 4, 6, 9, 2, 9]) } else { r.below(10) };
+        let kind = match pick {
             0 => {
                 b.world.threads[ti].regs[R_RIP] = inside;
                 "ip-inside"
@@ -959,6 +967,10 @@ fn gen_c20(r: &mut Rng, seed: u64) -> Scenario {
         let rip = b.world.threads[ti].regs[R_RIP];
         opts.crash = Some(crash_spec(r, tid, rsp, rip));
         tags.push("crash".into());
+    }
+    if limit_on {
+        opts.size_limit = Some(1);
+        tags.push("limit".into());
     }
     let mut sc = simple_dump_scenario("C20", seed, "c20-stack-filter", b, opts);
     reader_knob(r, &mut sc.faults, &mut tags);
@@ -1108,6 +1120,7 @@ fn gen_c11(r: &mut Rng, seed: u64, idx: u64) -> Scenario {
         _ => 2,
     };
     let mut used: Vec<u64> = Vec::new();
+    let mut file_copy: Vec<(String, &str, &str, i32)> = Vec::new();
     for _ in 0..nkinds {
         let kind = r.below(16);
         if used.contains(&kind) {
@@ -1212,10 +1225,8 @@ fn gen_c11(r: &mut Rng, seed: u64, idx: u64) -> Scenario {
                 ];
                 let (f, exp, aff) = *r.pick(&files);
                 let path = format!("/proc/{}/{}", blamed, f);
-                if let Some(nth) = last_open_index(&clean, &path) {
-                    faults.push(open_fault(&path, nth, *r.pick(&[2, 13, 24])));
-                    push_tags(&mut tags, &[exp, aff, "file-copy"]);
-                }
+                // which open feeds the raw stream depends on everything else injected: decided below
+                file_copy.push((path, exp, aff, *r.pick(&[2, 13, 24])));
             }
             11 => {
                 faults.push(open_fault("/etc/lsb-release", 0, 2));
@@ -1251,9 +1262,23 @@ fn gen_c11(r: &mut Rng, seed: u64, idx: u64) -> Scenario {
             _ => {}
         }
     }
+    let _ = &clean;
     let mut sc = simple_dump_scenario("C11", seed, "c11-natural-failures", b, opts);
     sc.faults = faults;
     sc.events = events;
+    if !file_copy.is_empty() {
+        // pre-run with the other injections in place: the raw copy is the last open of that path
+        let pre = crate::run::run(&sc, &crate::run::RunOpts { settle_rounds: 0, ..Default::default() });
+        for (path, exp, aff, e) in file_copy {
+            if let Some(nth) = last_open_index(&pre, &path) {
+                let ok_pre = pre.dumps.first().map(|d| d.result.is_ok()).unwrap_or(false);
+                if ok_pre {
+                    sc.faults.push(FaultRule { trig: Trigger { kind: CallKind::Open, nth, path: Some(path.clone()) }, effect: Effect::Errno(e), times: 1, exotic: false });
+                    push_tags(&mut tags, &[exp, aff, "file-copy"]);
+                }
+            }
+        }
+    }
     sc.tags = tags;
     sc
 }
@@ -1610,7 +1635,7 @@ fn gen_c08(r: &mut Rng, seed: u64) -> Scenario {
     }
     // a library whose section table is not mapped and whose note is only in a section
     if r.chance(1, 3) {
-        let spec = crate::elfgen::ElfSpec { build_id: Some(r.bytes(20)), note_in_phdr: false, soname: Some("libfileonly.so.2".into()), sections: true, text_pages: 1, text_seed: r.next(), dt_debug: false, dyn_pad: 0, with_pt_phdr: false, sections_at_end: true };
+        let spec = crate::elfgen::ElfSpec { build_id: Some(r.bytes(20)), note_in_phdr: false, soname: Some("libfileonly.so.2".into()), sections: true, text_pages: 1, text_seed: r.next(), dt_debug: false, dyn_pad: 0, with_pt_phdr: false, sections_at_end: true, rodata_before_text: false };
         let img = crate::elfgen::build(&spec);
         let base = LIB_BASE + 0x5000_0000;
         let path = "/usr/lib/libfileonly.so.2.0";
@@ -1627,7 +1652,7 @@ fn gen_c08(r: &mut Rng, seed: u64) -> Scenario {
     }
     // a library embedded in an archive: executable mapping from a non-zero file offset
     if r.chance(1, 3) {
-        let spec = crate::elfgen::ElfSpec { build_id: Some(r.bytes(20)), note_in_phdr: true, soname: Some("libembedded.so".into()), sections: r.coin(), text_pages: 1, text_seed: r.next(), dt_debug: false, dyn_pad: 0, with_pt_phdr: false, sections_at_end: false };
+        let spec = crate::elfgen::ElfSpec { build_id: Some(r.bytes(20)), note_in_phdr: true, soname: Some("libembedded.so".into()), sections: r.coin(), text_pages: 1, text_seed: r.next(), dt_debug: false, dyn_pad: 0, with_pt_phdr: false, sections_at_end: false, rodata_before_text: false };
         let img = crate::elfgen::build(&spec);
         let base = LIB_BASE + 0x6000_0000;
         let path = "/data/app/base.apk";
@@ -1650,7 +1675,7 @@ fn gen_c08(r: &mut Rng, seed: u64) -> Scenario {
         push_tags(&mut tags, &["non-elf"]);
     }
     if r.chance(1, 4) {
-        let spec = crate::elfgen::ElfSpec { build_id: Some(vec![0u8; 20]), note_in_phdr: true, soname: None, sections: true, text_pages: 1, text_seed: 5, dt_debug: false, dyn_pad: 0, with_pt_phdr: false, sections_at_end: false };
+        let spec = crate::elfgen::ElfSpec { build_id: Some(vec![0u8; 20]), note_in_phdr: true, soname: None, sections: true, text_pages: 1, text_seed: 5, dt_debug: false, dyn_pad: 0, with_pt_phdr: false, sections_at_end: false, rodata_before_text: false };
         let img = crate::elfgen::build(&spec);
         let base = LIB_BASE + 0x7000_0000;
         let path = "/usr/lib/libzeroid.so";
@@ -1984,7 +2009,7 @@ fn gen_c02(r: &mut Rng, seed: u64) -> Scenario {
     let mut tags = sc.tags.clone();
     let nh = r.range(1, 4);
     for _ in 0..nh {
-        match r.below(16) {
+        match r.below(18) {
             0 | 1 => {
                 // hostile crash context registers
                 let blamed = match &sc.workload { Workload::Dump(p) => p.opts.blamed, _ => PID };
@@ -2158,6 +2183,42 @@ fn gen_c02(r: &mut Rng, seed: u64) -> Scenario {
                     }
                 }
                 push_tags(&mut tags, &["h:caller-config"]);
+            }
+            16 | 17 => {
+                // structure-aware corruption of a mapped library (memory image and file alike)
+                let libs: Vec<B> = {
+                    let mut v: Vec<B> = Vec::new();
+                    for g in &sc.world.regions {
+                        if g.name.0.starts_with(b"/usr/lib/libsim") && !v.contains(&g.name) {
+                            v.push(g.name.clone());
+                        }
+                    }
+                    v
+                };
+                if let Some(name) = libs.first().cloned() {
+                    let base = sc.world.regions.iter().filter(|g| g.name == name).map(|g| g.start).min().unwrap_or(0);
+                    // interesting places: ELF header, program headers, section headers, note, dynamic entries
+                    let off = match r.below(6) {
+                        0 => *r.pick(&[32u64, 40, 54, 56, 58, 60, 62]),
+                        1 => 0x40 + r.below(6) * 56 + *r.pick(&[0u64, 8, 16, 32, 40, 48]),
+                        2 => 0x400 + r.below(6) * 64 + *r.pick(&[0u64, 4, 8, 16, 24, 32, 40, 48]),
+                        3 => 0x200 + *r.pick(&[0u64, 4, 8]),
+                        _ => {
+                            // dynamic section lives at the start of the library's rw page
+                            let d = sc.world.regions.iter().find(|g| g.name == name && g.perms == "rw-p").map(|g| g.start - base).unwrap_or(0x2000);
+                            d + r.below(6) * 16 + *r.pick(&[0u64, 8])
+                        }
+                    };
+                    let val = match r.below(4) {
+                        0 => {
+                            // equal to a neighbouring field (e.g. DT_SONAME == DT_STRSZ)
+                            r.below(64)
+                        }
+                        _ => *r.pick(&BOUNDARY),
+                    };
+                    sc.world.plants.push((base + (off & !7), val));
+                    push_tags(&mut tags, &["h:lib-elf-bytes"]);
+                }
             }
             14 => {
                 sc.world.auxv_cut = r.below(40);
